@@ -67,12 +67,15 @@ def farkas_fits(allrows, names, t, mu, lam_int):
     return big <= INT_MAX
 
 
-def cert(hyp, names, t, exact_only=False):
-    """Certificate that hyp /\\ box => t (within 0.9 tol; exactly if exact_only), or None."""
-    allrows = hyp + box_rows(names)
+def cert(hyp, names, t, exact_only=False, box=True, margin=False):
+    """Certificate that hyp /\\ box => t (within 0.9 tol; exactly if exact_only; with a margin of
+    tol if margin), or None.  box=False: the certificate may not use the box rows."""
+    allrows = hyp + (box_rows(names) if box else [])
     tol = F(t["k"] + abs(t["c"]), 10000)
     tries = [("cert_exact", F(t["c"]))]
-    if not exact_only:
+    if margin:
+        tries = [("cert_exact", F(t["c"]) - tol)]
+    elif not exact_only:
         tries.append(("cert_tol", F(t["c"]) + tol * F(9, 10)))
     for which, bound in tries:
         L = _solve_lambda(allrows, names, t["co"], bound)
@@ -94,6 +97,112 @@ def cert(hyp, names, t, exact_only=False):
             "_L": L,
         }
     return None
+
+
+def infeas_cert(hyp, names, box=False):
+    """Farkas certificate that hyp (/\\ box) is infeasible, or None."""
+    allrows = hyp + (box_rows(names) if box else [])
+    if not allrows:
+        return None
+    L = _solve_lambda(allrows, names, {}, F(-1))
+    if L is None:
+        return None
+    mu = _lcm(L)
+    lam_int = {i: int(L[i] * mu) for i in range(len(L)) if L[i] != 0}
+    zero = {"co": {}, "c": 0, "k": 1}
+    if not farkas_fits(allrows, names, zero, 1, lam_int):
+        STATS["overflow"] += 1
+        return None
+    return {"kind": "infeasible", "mu": 1, "lam": {str(i + 1): v for i, v in lam_int.items()}, "d": 1, "q": {}}
+
+
+def feasible_point(hyp, names):
+    """A point of hyp inside the box with small denominator (hint kind 'witness'), or None."""
+    for M, d in _SCHEDULE:
+        STATS["z3_calls"] += 1
+        s = z3.Solver()
+        X = {n: z3.Int(n) for n in names}
+        for n in names:
+            s.add(X[n] <= M * d, X[n] >= -M * d)
+        for r in hyp:
+            s.add(_holds(r, X, d))
+        if s.check() == z3.sat:
+            m = s.model()
+            q = {n: m.eval(X[n], model_completion=True).as_long() for n in names}
+            if witness_fits(hyp, {"co": {}, "c": 0, "k": 1}, q, d):
+                return {"kind": "witness", "mu": 1, "lam": {}, "d": d, "q": q}
+    return None
+
+
+def not_implied_witness(hyp, names, t):
+    """A point of hyp where t is NOT satisfied with a margin of tol: excess > -tol."""
+    for M, d in _SCHEDULE:
+        STATS["z3_calls"] += 1
+        s = z3.Solver()
+        X = {n: z3.Int(n) for n in names}
+        for n in names:
+            s.add(X[n] <= M * d, X[n] >= -M * d)
+        for r in hyp:
+            s.add(_holds(r, X, d))
+        s.add((_lin(t["co"], X) - t["c"] * d) * 10000 + (t["k"] + abs(t["c"])) * d > 0)
+        if s.check() == z3.sat:
+            m = s.model()
+            q = {n: m.eval(X[n], model_completion=True).as_long() for n in names}
+            if witness_fits(hyp, t, q, d):
+                return {"kind": "witness", "mu": 1, "lam": {}, "d": d, "q": q}
+    return None
+
+
+def opt_hint(rows, obj, names):
+    """Hint for max obj.x over rows: optimal (primal point, value, exact box-free dual), unbounded
+    (point and recession ray) or infeasible (Farkas)."""
+    base = {"kind": "none", "mu": 1, "lam": {}, "d": 1, "q": {}, "vn": 0, "vd": 1, "ray": {}}
+    ic = infeas_cert(rows, names, box=False)
+    if ic is not None:
+        base.update(ic)
+        base["kind"] = "infeasible"
+        return base
+    pt = feasible_point(rows, names)
+    if pt is None:
+        return base
+    # recession ray with positive objective
+    STATS["z3_calls"] += 1
+    s = z3.Solver()
+    Rr = {n: z3.Int("r_" + n) for n in names}
+    for n in names:
+        s.add(Rr[n] <= 50, Rr[n] >= -50)
+    for r in rows:
+        s.add(_lin(r["co"], Rr) <= 0)
+    s.add(_lin(obj, Rr) >= 1)
+    if s.check() == z3.sat:
+        m = s.model()
+        base.update(kind="unbounded", q=pt["q"], d=pt["d"], ray={n: m.eval(Rr[n], model_completion=True).as_long() for n in names})
+        return base
+    # optimum: exact LP
+    STATS["z3_calls"] += 1
+    o = z3.Optimize()
+    X = {n: z3.Real(n) for n in names}
+    for r in rows:
+        terms = [a * X[v] for v, a in r["co"].items() if a != 0]
+        o.add((z3.Sum(terms) if terms else z3.RealVal(0)) <= r["c"])
+    terms = [a * X[v] for v, a in obj.items() if a != 0]
+    hnd = o.maximize(z3.Sum(terms) if terms else z3.RealVal(0))
+    if o.check() != z3.sat:
+        return base
+    m = o.model()
+    P = {n: _frac(m.eval(X[n], model_completion=True)) for n in names}
+    val = sum(F(a) * P[v] for v, a in obj.items())
+    d = _lcm(list(P.values()) or [F(1)])
+    q = {n: int(P[n] * d) for n in names}
+    if any(abs(x) > BOX * d for x in q.values()):
+        return base
+    vn, vd = val.numerator, val.denominator
+    t = {"co": {v: a * vd for v, a in obj.items()}, "c": vn, "k": vd}
+    c = cert(rows, names, t, exact_only=True, box=False)
+    if c is None or not witness_fits(rows, t, q, d):
+        return base
+    base.update(kind="optimal", q=q, d=d, vn=vn, vd=vd, mu=c["mu"], lam=c["lam"])
+    return base
 
 
 # ------------------------------------------------------------------ witnesses
